@@ -1,10 +1,765 @@
-//! C23 — not built yet.
+//! C23 A crash at any point never corrupts the store or blocks later runs.
+//!
+//! E-crash over E-rpki histories. Pre-state: one complete run over "version 1" of every CA
+//! (including CAs whose point never succeeded, so the victim takes the "last attempt" header
+//! re-write path). Victim: a child process (`rvchild crash-victim`) performing the run against
+//! "version 2" (changed, unchanged, newly appearing, vanished, newly succeeding, still failing and
+//! incompletely published CAs), killed by `abort()` at kill point k for every k (all when the
+//! count M <= 400, else first/last 20 + every label change + a seeded sample). After each kill:
+//!  (i)   every stored-point file is read with routinator's own reader and must equal, per CA, the
+//!        complete content it had before the victim run or the complete content it has after an
+//!        uninterrupted run (a CA that never had a stored version may also be absent / carry the
+//!        never-succeeded header / an unreadable short header, which routinator re-creates);
+//!  (ii)  the next normal run succeeds and yields exactly the payload and store contents of the
+//!        never-interrupted reference;
+//!  (iii) `vrps --update-after 1`, `vrps --noupdate`, `validate`, `update`, `dump` (hooked CLI
+//!        binary) exit 0 on copies of the post-kill cache whenever they exit 0 on the
+//!        uninterrupted reference cache;
+//!  (iv)  a run without network access over the post-kill cache yields the data set of the stored
+//!        versions found in (i) (reference model over the observed per-CA versions).
 
+use std::collections::{BTreeMap, BTreeSet};
+use std::path::{Path, PathBuf};
+use std::time::Duration;
+
+use serde::{Deserialize, Serialize};
+use serde_json::json;
+
+use crate::clibin::*;
 use crate::core::*;
+use crate::crash::*;
+use crate::erpki::*;
+use crate::erun::scratch_base;
+use crate::escen::*;
+use crate::pay::MSet;
 
-pub const IMPLEMENTED: bool = false;
+pub const KEY_STATUS: &str = "C23/update-after-fails/status-file-truncated";
+pub const KEY_TA: &str = "C23/offline-run-loses-data/ta-file-torn";
+pub const KEY_DUMP: &str = "C23/dump-fails/never-succeeded-point-left-by-kill";
+const POINT_CAP: usize = 400;
+const WORKERS: usize = 16;
 
-pub fn run(_ctx: &Ctx, _rep: &mut Report, _replay: Option<&serde_json::Value>) {
-    eprintln!("C23: check not implemented");
-    std::process::exit(2);
+#[derive(Serialize, Deserialize, Clone, Debug)]
+pub struct KillCase {
+    pub sc: Scenario,
+    /// kill point (1-based) of the victim run (= step 1 of the scenario)
+    pub k: u64,
+    /// the pre-state run used `dirty` (no cleanup), so headers of points that never succeeded
+    /// exist when the victim starts
+    #[serde(default)]
+    pub pre_dirty: bool,
+    /// label of the point at which the victim died. The order in which routinator processes
+    /// sibling CAs and manifest entries is randomised (manifest shuffle, not seedable), so the same k
+    /// can fall into another operation when the case is re-run; a replay therefore also explores
+    /// every point of the re-run that carries this label.
+    #[serde(default)]
+    pub label: String,
+}
+
+#[derive(Clone, Copy, Debug, PartialEq, Eq)]
+enum Role {
+    Changed,
+    Unchanged,
+    NeverOk,
+    LateOk,
+    New,
+    Vanished,
+    ChangedBad,
+    /// never succeeded and no longer published by the parent: cleanup removes its header file and,
+    /// being alone in module 2, the module copy
+    VanishedNeverOk,
+}
+
+const ROLES: [Role; 9] = [Role::Changed, Role::Unchanged, Role::NeverOk, Role::LateOk, Role::New, Role::Vanished, Role::ChangedBad, Role::VanishedNeverOk, Role::Changed];
+
+/// The fixed shape of the covering scenario: every role once, all below one changed root, one grandchild.
+const COVERING: [(Option<usize>, Role); 9] = [
+    (None, Role::Changed),
+    (Some(0), Role::Unchanged),
+    (Some(0), Role::NeverOk),
+    (Some(0), Role::LateOk),
+    (Some(0), Role::New),
+    (Some(0), Role::Vanished),
+    (Some(0), Role::ChangedBad),
+    (Some(0), Role::VanishedNeverOk),
+    (Some(1), Role::Changed),
+];
+
+fn bad_fault(d: &mut D) -> PpFault {
+    let k = d.below(4) as u8;
+    d.pick(&[PpFault::MftBadSig, PpFault::HashMismatch(k), PpFault::FileMissing(k), PpFault::CrlBadSig])
+}
+
+/// Two-step scenario: step 0 builds the pre-state, step 1 is the victim run.
+pub fn scenario(words: &[u16]) -> (Scenario, Vec<String>) {
+    scenario_with(words, None)
+}
+
+/// `shape`: fixed parents and roles (objects, faults and modules still come from the genome).
+fn scenario_with(words: &[u16], shape: Option<&[(Option<usize>, Role)]>) -> (Scenario, Vec<String>) {
+    let mut d = D::new(words);
+    let p = Profile { max_objs: 3, obj_faults: false, pp_faults: false, cert_faults: false, ..Default::default() };
+    let mut cfg = Cfg { threads: 1, ..Default::default() };
+    cfg.stale = d.pick(&[0u8, 2]);
+    cfg.unsafe_vrps = d.pick(&[2u8, 0]);
+    let ntals = 1 + d.below(2);
+    let ncas = match shape {
+        Some(s) => s.len(),
+        None => ntals + 2 + d.below(4),
+    };
+    let mut cas: Vec<Ca> = Vec::new();
+    let mut roles: Vec<Role> = Vec::new();
+    for i in 0..ncas {
+        let mut parent = if i < ntals { None } else { Some(d.below(i)) };
+        let mut role = if parent.is_none() { d.pick(&[Role::Changed, Role::Changed, Role::Unchanged]) } else { d.pick(&ROLES) };
+        if let Some(s) = shape {
+            parent = s[i].0;
+            role = s[i].1;
+        }
+        if matches!(role, Role::New | Role::Vanished | Role::VanishedNeverOk) && roles[parent.unwrap()] != Role::Changed {
+            role = Role::Changed;
+        }
+        let module = if role == Role::VanishedNeverOk { 2 } else { d.below(2) };
+        let mut versions: Vec<Version> = (0..2)
+            .map(|v| {
+                let mut ver = decode_version(&mut d, &p, v);
+                if ver.objs.is_empty() {
+                    ver.objs.push(decode_obj(&mut d, &p));
+                }
+                ver.number = 100 + 10 * v as u64;
+                ver.this_off = -40_000 + 600 * v as i64;
+                ver
+            })
+            .collect();
+        match role {
+            Role::NeverOk | Role::VanishedNeverOk => {
+                versions[0].fault = Some(bad_fault(&mut d));
+                versions[1].fault = Some(bad_fault(&mut d));
+            }
+            Role::LateOk => versions[0].fault = Some(bad_fault(&mut d)),
+            Role::ChangedBad => {
+                let k = d.below(4) as u8;
+                versions[1].fault = Some(d.pick(&[PpFault::HashMismatch(k), PpFault::FileMissing(k)]));
+            }
+            _ => {}
+        }
+        cas.push(Ca { parent, key: i, module, not_after: 86400 * 365, cert_fault: None, versions, extra_res: None });
+        roles.push(role);
+    }
+    for i in 0..ncas {
+        if let Some(p) = cas[i].parent {
+            match roles[i] {
+                Role::New => cas[p].versions[0].omit_children.push(i),
+                Role::Vanished | Role::VanishedNeverOk => cas[p].versions[1].omit_children.push(i),
+                _ => {}
+            }
+        }
+    }
+    let publish1: Vec<usize> = roles.iter().map(|r| if *r == Role::Unchanged { 0 } else { 1 }).collect();
+    let fail1 = if d.chance(1, 8) { vec![d.below(2)] } else { vec![] };
+    let steps = vec![
+        Step { publish: vec![0; ncas], fail_modules: vec![], offline: false, stale: None },
+        Step { publish: publish1, fail_modules: fail1, offline: false, stale: None },
+    ];
+    (Scenario { cfg, cas, steps }, roles.iter().map(|r| format!("{:?}", r)).collect())
+}
+
+/// What one stored-point file looks like.
+#[derive(Clone, Debug, PartialEq, Eq)]
+enum PointState {
+    Absent,
+    /// file present, header does not parse (empty / short file)
+    HeaderUnreadable(String),
+    /// header parses, the rest does not
+    BodyUnreadable(String),
+    NeverSucceeded,
+    Stored(StoredView),
+}
+
+fn point_state(sc: &Scenario, cache: &Path, ca: usize) -> PointState {
+    let path = stored_path_in(sc, cache, ca);
+    let Ok(mut file) = std::fs::File::open(&path) else { return PointState::Absent };
+    if let Err(e) = routinator::store::StoredPointHeader::read(&mut file) {
+        return PointState::HeaderUnreadable(format!("{} (fatal={})", e, e.is_fatal()));
+    }
+    match read_stored_file(&path) {
+        Ok(None) => PointState::NeverSucceeded,
+        Ok(Some(v)) => PointState::Stored(v),
+        Err(e) => PointState::BodyUnreadable(e),
+    }
+}
+
+fn describe(st: &PointState, exp: &[StoredView]) -> String {
+    match st {
+        PointState::Stored(v) => match exp.iter().position(|e| e == v) {
+            Some(i) => format!("complete version {}", i + 1),
+            None => format!("a stored point matching no complete version (manifest of version {:?}, {} objects)", exp.iter().position(|e| e.manifest == v.manifest).map(|i| i + 1), v.objects.len()),
+        },
+        other => format!("{:?}", other),
+    }
+}
+
+const COMMANDS: [&str; 5] = ["vrps-update-after", "vrps-noupdate", "validate", "update", "dump"];
+
+fn command_args(name: &str, dump_dir: &Path) -> Vec<String> {
+    let s = |x: &str| x.to_string();
+    match name {
+        "vrps-update-after" => vec![s("vrps"), s("--update-after"), s("1"), s("-o"), s("/dev/null")],
+        "vrps-noupdate" => vec![s("vrps"), s("--noupdate"), s("-o"), s("/dev/null")],
+        "validate" => vec![s("validate"), s("--asn"), s("64496"), s("--prefix"), s("192.0.2.0/24")],
+        "update" => vec![s("update")],
+        "dump" => vec![s("dump"), s("-o"), dump_dir.to_string_lossy().into_owned()],
+        _ => unreachable!(),
+    }
+}
+
+/// Everything about a scenario the per-point evaluation needs (shared read-only between workers).
+struct Prepared {
+    sc: Scenario,
+    roles: Vec<String>,
+    _world: World,
+    base: PathBuf,
+    pre_cache: PathBuf,
+    world_paths: WorldPaths,
+    bin: PathBuf,
+    /// complete content per CA per version
+    exp_views: Vec<Vec<StoredView>>,
+    pre_states: Vec<PointState>,
+    ref_states: Vec<PointState>,
+    ref_payload: MSet,
+    ref_cli: BTreeMap<String, Option<i32>>,
+    pre_cli: BTreeMap<String, Option<i32>>,
+    /// trust anchor certificates by root CA index
+    ta_certs: BTreeMap<usize, Vec<u8>>,
+    pre_model: ModelState,
+    labels: Vec<String>,
+    pre_dirty: bool,
+}
+
+fn paths_for(p: &Prepared, dir: &Path) -> WorldPaths {
+    WorldPaths { conf: dir.join("routinator.conf"), cache: dir.join("cache"), rsync_log: dir.join("rsync.log"), ..p.world_paths.clone() }
+}
+
+fn run_cli(bin: &Path, cfg: &Cfg, paths: &WorldPaths, dir: &Path, name: &str) -> Result<ProcResult, String> {
+    write_cli_config(cfg, paths)?;
+    let args = command_args(name, &dir.join("dump-out"));
+    let argv: Vec<&str> = args.iter().map(|s| s.as_str()).collect();
+    run_watchdog(cli_command(bin, paths, dir, &argv), dir, Duration::from_secs(120))
+}
+
+/// Exit codes of all commands on copies of `cache`.
+fn cli_codes(bin: &Path, cfg: &Cfg, template: &WorldPaths, cache: &Path, dir: &Path) -> Result<BTreeMap<String, Option<i32>>, String> {
+    let mut res = BTreeMap::new();
+    for name in COMMANDS {
+        let d = dir.join(name);
+        copy_tree(cache, &d.join("cache")).map_err(|e| e.to_string())?;
+        let paths = WorldPaths { conf: d.join("routinator.conf"), cache: d.join("cache"), rsync_log: d.join("rsync.log"), ..template.clone() };
+        let r = run_cli(bin, cfg, &paths, &d, name)?;
+        if r.watchdog {
+            return Err(format!("watchdog on reference command {}", name));
+        }
+        res.insert(name.to_string(), r.code);
+    }
+    Ok(res)
+}
+
+fn prepare(sc: &Scenario, roles: Vec<String>, bin: &Path, pre_dirty: bool) -> Result<Prepared, String> {
+    let mut world = World::new(sc, scratch_base());
+    let base = world.dir.path().join("crash");
+    std::fs::create_dir_all(&base).map_err(|e| e.to_string())?;
+    let ex = empty_exceptions();
+    // pre-state
+    let mut model = ModelState::default();
+    world.publish(&sc.steps[0]);
+    let mut sc0 = sc.clone();
+    sc0.cfg.dirty = pre_dirty;
+    let exp0 = model_step(&sc0, &sc.steps[0], &mut model);
+    // without cleanup (`dirty`) the header of a point that never succeeded is still there when the
+    // victim starts, so the victim takes the "last attempt" re-write path; with cleanup it mostly is
+    // removed (retain compares a whole-second time stamp with the start of the run)
+    let out0 = world.run_with(false, &ex, |c| c.dirty_repository = pre_dirty).map_err(|e| format!("pre-state run: {}", e))?;
+    if out0.payload != exp0.payload {
+        return Err("model_mismatch_pre_state".into());
+    }
+    let pre_cache = base.join("pre-cache");
+    copy_tree(&world.cache(), &pre_cache).map_err(|e| e.to_string())?;
+    let pre_model = model.clone();
+    // version 2 on the server
+    world.publish(&sc.steps[1]);
+    let exp1 = model_step(sc, &sc.steps[1], &mut model);
+    let mut exp_views = Vec::new();
+    for ca in 0..sc.cas.len() {
+        exp_views.push((0..sc.cas[ca].versions.len()).map(|v| world.expected_stored(ca, v)).collect::<Vec<_>>());
+    }
+    let ta_certs: BTreeMap<usize, Vec<u8>> = sc.cas.iter().enumerate().filter(|(_, c)| c.parent.is_none()).map(|(i, _)| (i, world.ca_certs[&i].to_vec())).collect();
+    let world_paths = world.paths();
+    let mut p = Prepared {
+        sc: sc.clone(),
+        roles,
+        base: base.clone(),
+        pre_cache,
+        world_paths,
+        bin: bin.to_path_buf(),
+        exp_views,
+        pre_states: vec![],
+        ref_states: vec![],
+        ref_payload: MSet::default(),
+        ref_cli: BTreeMap::new(),
+        pre_cli: BTreeMap::new(),
+        ta_certs,
+        pre_model,
+        labels: vec![],
+        pre_dirty,
+        _world: world,
+    };
+    // uninterrupted reference = pass 0 of the victim (counts the kill points)
+    let rdir = base.join("ref");
+    copy_tree(&p.pre_cache, &rdir.join("cache")).map_err(|e| e.to_string())?;
+    let rpaths = paths_for(&p, &rdir);
+    let job = VictimJob { cfg: sc.cfg.clone(), paths: rpaths.clone(), offline: false, out: rdir.join("result.json") };
+    let r = spawn_victim(&job, &rdir, None)?;
+    if r.watchdog {
+        return Err("watchdog_reference".into());
+    }
+    let res = read_victim_result(&job).ok_or_else(|| format!("reference victim gave no result: exit {:?} signal {:?} stderr {}", r.code, r.signal, truncate(&String::from_utf8_lossy(&r.stderr), 400)))?;
+    if !res.ok {
+        return Err(format!("reference victim run failed: {:?}", res.error));
+    }
+    if res.payload != exp1.payload {
+        return Err("model_mismatch_reference".into());
+    }
+    p.ref_payload = res.payload;
+    p.labels = read_trace(&rdir);
+    if p.labels.len() as u64 != res.kill_points {
+        return Err(format!("trace has {} lines, victim counted {} kill points", p.labels.len(), res.kill_points));
+    }
+    for ca in 0..sc.cas.len() {
+        p.pre_states.push(point_state(sc, &p.pre_cache, ca));
+        p.ref_states.push(point_state(sc, &rpaths.cache, ca));
+    }
+    p.ref_cli = cli_codes(bin, &sc.cfg, &p.world_paths, &rpaths.cache, &base.join("ref-cli"))?;
+    p.pre_cli = cli_codes(bin, &sc.cfg, &p.world_paths, &p.pre_cache, &base.join("pre-cli"))?;
+    Ok(p)
+}
+
+struct PointOutcome {
+    label: String,
+    killed: bool,
+    info: CaseInfo,
+    /// (key, message) of every oracle that failed at this point
+    failures: Vec<(String, String)>,
+    /// known shapes skipped at this point
+    excluded: Vec<&'static str>,
+    dropped: Option<String>,
+}
+
+fn intermediate_label(label: &str) -> bool {
+    label.starts_with("store.point.update") || label.ends_with(".truncated") || label == "store.status.created" || label == "fatal.write_file" || label == "fatal.remove_file" || label == "fatal.remove_dir_all"
+}
+
+/// `skip_known`: exclude the listed known shapes (bulk search); false for directed cases and replays.
+fn eval_point(p: &Prepared, k: u64, skip_known: bool) -> PointOutcome {
+    let sc = &p.sc;
+    let mut out = PointOutcome { label: String::new(), killed: false, info: CaseInfo::default(), failures: vec![], excluded: vec![], dropped: None };
+    let dir = p.base.join(format!("k{}", k));
+    let _ = std::fs::remove_dir_all(&dir);
+    let fail_infra = |out: &mut PointOutcome, e: String| out.dropped = Some(format!("infra:{}", truncate(&e, 80)));
+    if let Err(e) = copy_tree(&p.pre_cache, &dir.join("cache")) {
+        fail_infra(&mut out, e.to_string());
+        return out;
+    }
+    let paths = paths_for(p, &dir);
+    let job = VictimJob { cfg: sc.cfg.clone(), paths: paths.clone(), offline: false, out: dir.join("result.json") };
+    let r = match spawn_victim(&job, &dir, Some(k)) {
+        Ok(r) => r,
+        Err(e) => {
+            fail_infra(&mut out, e);
+            return out;
+        }
+    };
+    if r.watchdog {
+        out.dropped = Some("watchdog".into());
+        return out;
+    }
+    let trace = read_trace(&dir);
+    out.killed = aborted(&r);
+    if out.killed {
+        out.label = trace.last().cloned().unwrap_or_default();
+        if trace.len() as u64 != k {
+            out.dropped = Some("trace_length_differs_from_kill_point".into());
+            return out;
+        }
+    } else if r.code == Some(0) {
+        out.label = "not-killed".into();
+    } else {
+        out.dropped = Some(format!("victim_exit_{:?}_signal_{:?}", r.code, r.signal));
+        return out;
+    }
+    out.info.class(format!("label={}", out.label));
+    out.info.nt(out.killed && k > 1 && (k as usize) < p.labels.len() && intermediate_label(&out.label));
+    let at = format!("scenario roles {:?}; victim killed at point {} of {} ({})", p.roles, k, p.labels.len(), out.label);
+
+    // (i) stored point files
+    let mut observed: BTreeMap<usize, usize> = BTreeMap::new();
+    let mut never_succeeded_left = false;
+    for ca in 0..sc.cas.len() {
+        let st = point_state(sc, &paths.cache, ca);
+        if st == PointState::NeverSucceeded {
+            never_succeeded_left = true;
+        }
+        let pre = &p.pre_states[ca];
+        let rf = &p.ref_states[ca];
+        let had = matches!(pre, PointState::Stored(_));
+        let ok = match &st {
+            PointState::Stored(_) => st == *pre || st == *rf,
+            PointState::Absent | PointState::NeverSucceeded => !had,
+            // a header that does not parse is re-created by StoredPoint::open if the error is a
+            // plain EOF; acceptable only where nothing had been stored before
+            PointState::HeaderUnreadable(_) => {
+                if !had {
+                    out.info.class("torn_header_of_never_succeeded_point");
+                }
+                !had
+            }
+            PointState::BodyUnreadable(_) => false,
+        };
+        if !ok {
+            let shape = match &st {
+                PointState::Stored(_) => "mixed-content",
+                PointState::Absent => "lost",
+                PointState::NeverSucceeded => "reset-to-never-succeeded",
+                PointState::HeaderUnreadable(_) => "header-unreadable",
+                PointState::BodyUnreadable(_) => "body-unreadable",
+            };
+            out.failures.push((
+                format!("C23/stored-point/{}/{}", shape, out.label),
+                format!("{}: stored point of ca{} is {} — before the victim run it was {}, after an uninterrupted run it is {}", at, ca, describe(&st, &p.exp_views[ca]), describe(pre, &p.exp_views[ca]), describe(rf, &p.exp_views[ca])),
+            ));
+        }
+        if let PointState::Stored(v) = &st {
+            if let Some(i) = p.exp_views[ca].iter().position(|e| e == v) {
+                observed.insert(ca, i);
+                if st != *pre {
+                    out.info.class("point_already_new_version_at_kill");
+                }
+            }
+        }
+    }
+    // trust anchor files
+    let ta_dir = paths.cache.join("stored/ta");
+    let mut ta_torn = false;
+    for f in list_tree(&ta_dir) {
+        if f.ends_with('/') {
+            continue;
+        }
+        let data = std::fs::read(ta_dir.join(&f)).unwrap_or_default();
+        if !p.ta_certs.values().any(|c| *c == data) {
+            ta_torn = true;
+            out.info.class(if data.is_empty() { "ta_file_empty" } else { "ta_file_partial" });
+        }
+    }
+
+    // (iv) a run without network access over a copy of the post-kill cache
+    if ta_torn && skip_known && is_listed_known("C23", KEY_TA) {
+        out.excluded.push(KEY_TA);
+    } else {
+        let odir = dir.join("offline");
+        let res = copy_tree(&paths.cache, &odir.join("cache")).map_err(|e| e.to_string()).and_then(|_| {
+            let opaths = paths_for(p, &odir);
+            run_config(&config_for(&sc.cfg, &opaths), true, &empty_exceptions())
+        });
+        let mut st = ModelState { stored: observed.iter().map(|(a, b)| (*a, *b)).collect(), ..Default::default() };
+        st.ta_stored = p.pre_model.ta_stored.clone();
+        let exp = model_step(sc, &Step { offline: true, fail_modules: vec![], ..sc.steps[1].clone() }, &mut st);
+        match res {
+            Err(e) => out.failures.push((format!("C23/offline-run-fails/{}", out.label), format!("{}: a run without network access over the post-kill cache fails: {}", at, e))),
+            Ok(o) => {
+                if o.payload != exp.payload {
+                    let key = if ta_torn { KEY_TA.to_string() } else { format!("C23/offline-run-differs/{}", out.label) };
+                    out.failures.push((
+                        key,
+                        format!(
+                            "{}: a run without network access over the post-kill cache yields {} items, but the stored points (each a complete version: {:?}) and the trust anchors stored before the crash give {} items; trust anchor file torn: {}",
+                            at,
+                            o.payload.len(),
+                            observed,
+                            exp.payload.len(),
+                            ta_torn
+                        ),
+                    ));
+                }
+            }
+        }
+    }
+
+    // (iii) commands on copies of the post-kill cache
+    for name in COMMANDS {
+        if name == "vrps-update-after" && out.label == "store.status.created" && skip_known && is_listed_known("C23", KEY_STATUS) {
+            out.excluded.push(KEY_STATUS);
+            continue;
+        }
+        if name == "dump" && never_succeeded_left && skip_known && is_listed_known("C23", KEY_DUMP) {
+            out.excluded.push(KEY_DUMP);
+            continue;
+        }
+        if p.ref_cli.get(name).copied().flatten() != Some(0) || p.pre_cli.get(name).copied().flatten() != Some(0) {
+            // the command does not work on uninterrupted caches either: not a consequence of the crash
+            out.info.class(format!("command_fails_without_crash={}", name));
+            continue;
+        }
+        let d = dir.join(name);
+        let res = copy_tree(&paths.cache, &d.join("cache")).map_err(|e| e.to_string()).and_then(|_| {
+            let cpaths = paths_for(p, &d);
+            run_cli(&p.bin, &sc.cfg, &cpaths, &d, name)
+        });
+        match res {
+            Err(e) => {
+                fail_infra(&mut out, e);
+                return out;
+            }
+            Ok(r) if r.watchdog => {
+                out.dropped = Some("watchdog".into());
+                return out;
+            }
+            Ok(r) => {
+                if r.code != Some(0) {
+                    let status_len = std::fs::metadata(paths.cache.join("stored/status.bin")).map(|m| m.len() as i64).unwrap_or(-1);
+                    let key = if name == "vrps-update-after" && out.label == "store.status.created" {
+                        KEY_STATUS.to_string()
+                    } else if name == "dump" && never_succeeded_left {
+                        KEY_DUMP.to_string()
+                    } else {
+                        format!("C23/command-fails/{}/{}", name, out.label)
+                    };
+                    out.failures.push((
+                        key,
+                        format!("{}: `routinator {}` on the post-kill cache exits with {:?} (signal {:?}); it exits 0 on the cache before the victim run and on the uninterrupted cache; status.bin has {} bytes; stderr: {}", at, command_args(name, Path::new("<dir>")).join(" "), r.code, r.signal, status_len, truncate(&String::from_utf8_lossy(&r.stderr), 600)),
+                    ));
+                }
+            }
+        }
+    }
+
+    // (ii) the next normal run, on the post-kill cache itself
+    match run_config(&config_for(&sc.cfg, &paths), false, &empty_exceptions()) {
+        Err(e) => out.failures.push((format!("C23/next-run-fails/{}", out.label), format!("{}: the next normal run fails: {}", at, e))),
+        Ok(o) => {
+            if o.payload != p.ref_payload {
+                let missing = p.ref_payload.items().into_iter().collect::<BTreeSet<_>>();
+                let got = o.payload.items().into_iter().collect::<BTreeSet<_>>();
+                out.failures.push((
+                    format!("C23/next-run-differs/{}", out.label),
+                    format!("{}: the next normal run yields {} items, the never-interrupted run {}; missing e.g. {:?}, extra e.g. {:?}", at, got.len(), missing.len(), missing.difference(&got).next(), got.difference(&missing).next()),
+                ));
+            }
+            for ca in 0..sc.cas.len() {
+                let st = point_state(sc, &paths.cache, ca);
+                // whether the header of a point that never succeeded survives cleanup depends on
+                // the second boundary (retain compares a whole-second time stamp): both mean "nothing stored"
+                let nothing = |s: &PointState| matches!(s, PointState::Absent | PointState::NeverSucceeded);
+                if st != p.ref_states[ca] && !(nothing(&st) && nothing(&p.ref_states[ca])) {
+                    out.failures.push((
+                        format!("C23/next-run-store-differs/{}", out.label),
+                        format!("{}: after the next normal run the stored point of ca{} is {}, after the never-interrupted run it is {}", at, ca, describe(&st, &p.exp_views[ca]), describe(&p.ref_states[ca], &p.exp_views[ca])),
+                    ));
+                    break;
+                }
+            }
+        }
+    }
+    if std::env::var_os("RV_KEEP_WORLD").is_none() {
+        let _ = std::fs::remove_dir_all(&dir);
+    }
+    out
+}
+
+fn scenario_classes(p: &Prepared) -> Vec<String> {
+    let mut c: Vec<String> = p.roles.iter().map(|r| format!("role={}", r)).collect();
+    c.sort();
+    c.dedup();
+    c
+}
+
+struct Tally {
+    reported: std::collections::HashSet<String>,
+    more_failing: u64,
+    infra: Vec<String>,
+    label_hist: BTreeMap<String, u64>,
+}
+
+fn evaluate(ctx: &Ctx, rep: &mut Report, p: &Prepared, points: &[u64], skip_known: bool, tally: &mut Tally) {
+    let outs = parallel_map(points.len(), WORKERS, |i| eval_point(p, points[i], skip_known));
+    let classes = scenario_classes(p);
+    for (k, mut o) in points.iter().zip(outs) {
+        if std::env::var_os("RV_DEBUG").is_some() {
+            eprintln!("C23 debug: k={} label={} killed={} dropped={:?} excluded={:?} classes={:?} failures={:?}", k, o.label, o.killed, o.dropped, o.excluded, o.info.classes, o.failures.iter().map(|f| &f.0).collect::<Vec<_>>());
+        }
+        let case = Tagged { sub: "kill".to_string(), case: KillCase { sc: p.sc.clone(), k: *k, pre_dirty: p.pre_dirty, label: o.label.clone() } };
+        for key in &o.excluded {
+            rep.exclude_known(key);
+        }
+        *tally.label_hist.entry(o.label.clone()).or_default() += 1;
+        if let Some(why) = o.dropped {
+            if why.starts_with("infra:") {
+                tally.infra.push(format!("k={} {}", k, why));
+            }
+            rep.record(ctx, &case, &CaseInfo::default(), &Verdict::Dropped(why));
+            continue;
+        }
+        for c in &classes {
+            o.info.class(c.clone());
+        }
+        // one replay file per failing key; known findings are counted every time
+        let mut verdict = Verdict::Pass;
+        for (key, msg) in o.failures {
+            let known = !ctx.strict && ctx.known_key(&key).is_some();
+            if !known && !tally.reported.insert(key.clone()) {
+                tally.more_failing += 1;
+                continue;
+            }
+            if matches!(verdict, Verdict::Pass) {
+                verdict = Verdict::fail(key, msg);
+            } else {
+                rep.failure(ctx, &case, &key, &msg);
+            }
+        }
+        rep.record(ctx, &case, &o.info, &verdict);
+    }
+}
+
+/// The fixed scenario of the directed representatives (simplest genome).
+fn directed_scenario() -> (Scenario, Vec<String>) {
+    // one changed root and one child that appears only in version 2: a single processing order
+    scenario_with(&[0u16; 8], Some(&[(None, Role::Changed), (Some(0), Role::New)]))
+}
+
+pub fn run(ctx: &Ctx, rep: &mut Report, replay: Option<&serde_json::Value>) {
+    rep.level = "fault_enumeration".into();
+    rep.rule("E-crash over E-rpki: seeded two-run scenarios (scenario 0: fixed covering shape with every role once, 9 CAs; others 1-2 TALs, 3-7 CAs over 2-3 rsync modules; per CA one of: changed, unchanged, never succeeded before or now, succeeding for the first time, newly appearing in / vanished from the parent's manifest, incompletely published new version, never succeeded and vanished; optionally an unreachable module); pre-state = complete run over version 1, alternately with `dirty` (headers of never-succeeded points survive, so the victim takes the last-attempt re-write path) and with cleanup; victim = child process running against version 2 with one validation thread, killed by abort() at kill point k, for every k of the victim run (all when M <= 400, else first/last 20, every label change and a seeded sample of 400); a case = (scenario, k); oracles (i) stored-point files read with routinator's reader equal the complete previous or complete new content per CA, (ii) next normal run equals the never-interrupted reference (payload and store), (iii) vrps --update-after 1 / vrps --noupdate / validate / update / dump via the hooked binary exit 0 wherever they do on the uninterrupted caches, (iv) a network-less run yields the data set of the observed complete versions; non-trivial = the process was killed at a point that is neither the first nor the last of the run and lies inside a multi-step file operation (stored point update, truncating header/status re-write, trust anchor write, cleanup removal); distinct by (scenario, k)");
+    rep.assume("the kill is abort() in the victim process (no destructors, buffered data lost, temporary files left): faithful to SIGKILL; re-ordering or loss of completed writes by a power failure is out of scope");
+    rep.assume("kill points are the labelled fs steps of store.rs and utils/fatal.rs (feature verif-hooks); fatal::write_file is emulated as create-empty / half-written / complete; individual write() calls inside a header or status write are not split further");
+    rep.assume("the fake rsync transport (rvrsync) is a separate process and is never killed; partial module copies are not part of this property");
+    rep.assume("routinator shuffles manifest entries with a thread-local RNG that cannot be seeded from outside: the operation a given k falls into, and the number of kill points (by a few), differ between victim runs of one scenario; every victim reports the label it died at, a replay explores k-2..k+2 and every point carrying the recorded label");
+    rep.assume("StoredPoint::reject is not reached: it needs a stored manifest that no longer decodes, which no crash state produces");
+    let bin = match hooked_binary() {
+        Ok(b) => b,
+        Err(e) => {
+            eprintln!("C23: {}", e);
+            std::process::exit(2);
+        }
+    };
+    let mut tally = Tally { reported: Default::default(), more_failing: 0, infra: vec![], label_hist: BTreeMap::new() };
+    if let Some(v) = replay {
+        let t: Tagged<KillCase> = serde_json::from_value(v.clone()).expect("replay");
+        let roles = vec!["replay".to_string()];
+        match prepare(&t.case.sc, roles, &bin, t.case.pre_dirty) {
+            Ok(p) => {
+                let m = p.labels.len() as u64;
+                let mut points: BTreeSet<u64> = (t.case.k.saturating_sub(3).max(1)..=(t.case.k + 3).min(m + 3)).collect();
+                for (i, l) in p.labels.iter().enumerate() {
+                    if *l == t.case.label {
+                        points.insert(i as u64 + 1);
+                    }
+                }
+                let points: Vec<u64> = points.into_iter().collect();
+                // up to three passes: which operation a given k hits varies from run to run
+                for _ in 0..3 {
+                    evaluate(ctx, rep, &p, &points, false, &mut tally);
+                    if rep.violated() || !rep.known_hits.is_empty() {
+                        break;
+                    }
+                }
+            }
+            Err(e) => {
+                eprintln!("C23 replay: cannot prepare the scenario: {}", e);
+                std::process::exit(2);
+            }
+        }
+        return;
+    }
+    let n_scen = ctx.tier.pick(3usize, 24);
+    let genomes = sample_strategy(&genome(160), ctx.seed_for("scenarios"), n_scen);
+    let mut per_scenario = Vec::new();
+    let mut all_points = true;
+    for (n, g) in genomes.iter().enumerate() {
+        // scenario 0 of every run has the covering shape (every role once); the others are free
+        let (sc, roles) = if n == 0 { scenario_with(g, Some(&COVERING)) } else { scenario(g) };
+        let pre_dirty = n % 2 == 0;
+        let p = match prepare(&sc, roles, &bin, pre_dirty) {
+            Ok(p) => p,
+            Err(e) if e.starts_with("model_mismatch") || e.starts_with("watchdog") => {
+                *rep.dropped.entry(format!("scenario:{}", e)).or_default() += 1;
+                continue;
+            }
+            Err(e) => {
+                eprintln!("C23: scenario {}: {}", n, e);
+                std::process::exit(2);
+            }
+        };
+        let t_prep = ctx.start.elapsed().as_secs_f64();
+        let mut points = select_points(&p.labels, POINT_CAP, ctx.seed_for(&format!("points{}", n)));
+        // the number of kill points varies a little between runs of the same scenario (an incomplete
+        // update is noticed at a random position of the shuffled manifest): cover a longer tail
+        let m = p.labels.len() as u64;
+        points.extend(m + 1..=m + 3);
+        if points.len() < p.labels.len() + 3 {
+            all_points = false;
+        }
+        evaluate(ctx, rep, &p, &points, !ctx.strict, &mut tally);
+        eprintln!("C23: scenario {} ({} CAs, {} kill points, {} explored): prepared at {:.1}s, evaluated at {:.1}s", n, sc.cas.len(), p.labels.len(), points.len(), t_prep, ctx.start.elapsed().as_secs_f64());
+        per_scenario.push(json!({"cas": sc.cas.len(), "roles": p.roles, "kill_points": p.labels.len(), "explored": points.len(), "pre_state_run_dirty": pre_dirty}));
+        if rep.violated() {
+            break;
+        }
+    }
+    // samples: keep the shape of the scenario, not every object
+    for smp in rep.samples.iter_mut() {
+        if let Some(sc) = smp.pointer_mut("/case/sc") {
+            if let Ok(full) = serde_json::from_value::<Scenario>(sc.clone()) {
+                let cas: Vec<_> = full
+                    .cas
+                    .iter()
+                    .map(|c| json!({"parent": c.parent, "module": c.module, "objects": c.versions.iter().map(|v| v.objs.len()).collect::<Vec<_>>(), "faults": c.versions.iter().map(|v| format!("{:?}", v.fault)).collect::<Vec<_>>(), "omits": c.versions.iter().map(|v| v.omit_children.clone()).collect::<Vec<_>>()}))
+                    .collect();
+                *sc = json!({"summary_of_scenario": {"cas": cas, "publish": full.steps.iter().map(|s| s.publish.clone()).collect::<Vec<_>>(), "fail_modules": full.steps.iter().map(|s| s.fail_modules.clone()).collect::<Vec<_>>()}});
+            }
+        }
+    }
+    rep.extra.insert("scenarios".into(), json!(per_scenario));
+    rep.extra.insert("all_kill_points_of_each_scenario_explored".into(), json!(all_points));
+    rep.extra.insert("kill_label_histogram".into(), json!(tally.label_hist));
+    if tally.more_failing > 0 {
+        rep.extra.insert("further_failing_points_with_reported_keys".into(), json!(tally.more_failing));
+    }
+    if !tally.infra.is_empty() && !rep.violated() {
+        eprintln!("C23: {} point(s) could not be evaluated (infrastructure): {:?}", tally.infra.len(), tally.infra.iter().take(5).collect::<Vec<_>>());
+        std::process::exit(2);
+    }
+    if rep.violated() {
+        return;
+    }
+    // directed representatives of the known shapes, every run
+    let (sc, roles) = directed_scenario();
+    match prepare(&sc, roles, &bin, false) {
+        Ok(p) => {
+            let mut points = Vec::new();
+            if let Some(i) = p.labels.iter().position(|l| l == "store.status.created") {
+                points.push(i as u64 + 1);
+            }
+            // second point of the first trust anchor write: file created, nothing written
+            if let Some(i) = p.labels.iter().position(|l| l == "fatal.write_file") {
+                points.push(i as u64 + 2);
+            }
+            // the point after a new stored point got its never-succeeded header
+            if let Some(i) = p.labels.iter().position(|l| l == "store.point.create.truncated") {
+                points.push(i as u64 + 2);
+            }
+            let mut t2 = Tally { reported: Default::default(), more_failing: 0, infra: vec![], label_hist: BTreeMap::new() };
+            evaluate(ctx, rep, &p, &points, false, &mut t2);
+        }
+        Err(e) => {
+            eprintln!("C23: directed scenario: {}", e);
+            std::process::exit(2);
+        }
+    }
 }
